@@ -12,6 +12,7 @@ import (
 
 	"github.com/Vedant9500/WTF/internal/cache"
 	"github.com/Vedant9500/WTF/internal/database"
+	"github.com/Vedant9500/WTF/internal/metrics"
 )
 
 func init() {
@@ -240,6 +241,37 @@ func concSearch(args []string) int {
 			}
 		}
 		w.emit(&csEv{Op: "ctotal", Tr: tr, Total: total, Want: int(monitored)})
+	}
+	// metric bursts: many goroutines record through one monitor at full speed; no increment may be lost
+	for burst := 0; burst < 4; burst++ {
+		pm := metrics.NewPerformanceMonitor()
+		g, k := 8, 4000
+		var wg sync.WaitGroup
+		start := make(chan struct{})
+		for i := 0; i < g; i++ {
+			wg.Add(1)
+			go func(i int) {
+				defer wg.Done()
+				<-start
+				for j := 0; j < k; j++ {
+					pm.RecordSearchOperation(time.Microsecond, 1, (i+j)%2 == 0, 5)
+				}
+			}(i)
+		}
+		close(start)
+		wg.Wait()
+		total, hm := 0, 0
+		for _, m := range pm.GetPerformanceReport().ApplicationMetrics {
+			switch m.Name {
+			case "searches_total":
+				total += int(m.Value)
+			case "cache_hits_total", "cache_misses_total":
+				hm += int(m.Value)
+			}
+		}
+		tr++
+		w.emit(&csEv{Op: "ctotal", Tr: tr, Total: total, Want: g * k})
+		w.emit(&csEv{Op: "ctotal", Tr: tr, Total: hm, Want: g * k})
 	}
 	w.close()
 	fmt.Printf("{\"rounds\": %d, \"events\": %d}\n", *rounds, w.n)
